@@ -261,9 +261,9 @@ PROPS["C12"] = {
     "trusted_base": [T1, T2, T4, T6, T8, VSTD, PERR,
                      "R8 guard lowering (match guards moved into the scrutinee tuple) applied to parse_array_elem_lazy / parse_entry_lazy",
                      "parse_str acceptance contract assumed in this unit (Ok ==> exactly one grammar-valid string consumed)",
-                     "unchecked iterators: skip_one_unchecked (dispatcher + string, number [found F15], literal and container branches) is proved in unit unchecked to return exactly what skip_one returns on a well-formed value followed by whitespace and `,` `]` `}` or the end; the unchecked iterator drivers themselves (check == false paths of parse_array_elem_lazy / parse_entry_lazy) use it through that contract but their per-call agreement with the checked drivers is not separately stated",
+                     "unchecked iterators: skip_one_unchecked (dispatcher + string, number [found F15], literal and container branches) is proved in unit unchecked to return exactly what skip_one returns on a well-formed value followed by whitespace and `,` `]` `}` or the end; the driver contracts of parse_array_elem_lazy / parse_entry_lazy cover check == false too: the separator logic is mode-independent, and on a well-formed element followed by whitespace and `,` `]` `}` the unchecked mode yields the same item (end offset, exact span) as the checked one",
                      "LazyValue::new / JsonSlice carriers (Bytes, FastStr) are opaque (T4)"],
-    "level_text": "Verus proof of the per-call contract of the checked array/object iterators: first call demands the opening bracket, every call yields exactly the next well-formed element's span (after a correct separator / name / colon) or the end or an error, and after an error or the end the iterator yields nothing and does not move (latch); by induction over calls this is the statement",
+    "level_text": "Verus proof of the per-call contract of the array/object iterators (checked mode on every input; unchecked mode agrees with it on well-formed elements): first call demands the opening bracket, every call yields exactly the next well-formed element's span (after a correct separator / name / colon) or the end or an error, and after an error or the end the iterator yields nothing and does not move (latch); by induction over calls this is the statement",
     "level_note": "checked iterators over the bounds-checked reader; key decoding is parse_str (assumed here)",
     "technique": TECH_V,
     "explanation": "parse_array_elem_lazy / parse_entry_lazy / next_elem_impl / next_entry_impl contracts over the RFC grammar spec",
